@@ -9,6 +9,13 @@ crate sends them to.  Regenerated on every run from the compiled crate and from 
                        `hb_ot_shape_complex_categorize` picks for (script, the script's horizontal direction, the script's
                        first OpenType tag as the font's GSUB script) — a behavioural probe (`shaper` request);
                        1 = Arabic shaper, 2 = Universal Shaping Engine, 0 = anything else
+  joiningScriptOtTags  (script, [OpenType script tags]) for the same scripts, by the crate's own mapping (`scripttags`)
+  joiningShaperProbe   (script, direction 0 ltr / 1 rtl / 2 ttb / 3 btt, chosen GSUB script, shaper) for the same scripts:
+                       the shaper `hb_ot_shape_complex_categorize` picks for EVERY direction and EVERY script tag that
+                       `select_script` can hand over as the chosen GSUB script — 0 = none (no GSUB / no usable script
+                       record), 'DFLT', 'dflt', 'latn' (the three fall-backs of select_script) and each of the script's
+                       own OpenType tags — a behavioural probe of the compiled crate (`shaper` request), shaper codes
+                       as in joiningScriptShaper
   useJoiningScripts    the scripts listed in `has_arabic_joining` of src/hb/ot_shaper_use.rs (the scripts for which the
                        Universal shaper builds an Arabic plan and runs the joining analysis) — read from the SOURCE:
                        the `script::NAME` tokens of the function body, NAME -> tag through the constants of
@@ -72,6 +79,17 @@ def script_props(shim, sc):
     return ots, d, shaper
 
 
+FALLBACK_TAGS = ("DFLT", "dflt", "latn")     # select_script's fall-backs, in its order (ot_layout.rs)
+
+
+def shaper_probe(shim, sc, ots):
+    """[(direction, chosen GSUB script (0 = none), shaper name)] — every direction x every script tag select_script can choose"""
+    gs = [0] + [tag_num(t) for t in FALLBACK_TAGS] + [t for t in ots]
+    keys = [(d, g) for d in range(4) for g in gs]
+    o = ask(shim, [f"shaper {sc} {d} {g if g else '-'}" for d, g in keys])
+    return [(d, g, nm.strip()) for (d, g), nm in zip(keys, o)]
+
+
 def source_list():
     src = open(os.path.join(vlib.REPO, "src", "hb", "ot_shaper_use.rs")).read()
     m = re.search(r"fn has_arabic_joining\s*\([^)]*\)\s*->\s*bool\s*\{(.*?)\n\}", src, re.S)
@@ -98,12 +116,19 @@ def generate(shim):
         if sc not in scripts and tag_str(sc) not in NEUTRAL:
             scripts.append(sc)
     code = {"arabic": 1, "use": 2}
-    shapers = [(sc, script_props(shim, sc)[2]) for sc in scripts]
+    props = {sc: script_props(shim, sc) for sc in scripts}
+    shapers = [(sc, props[sc][2]) for sc in scripts]
+    probe = [(sc, d, g, nm) for sc in scripts for d, g, nm in shaper_probe(shim, sc, props[sc][0])]
     use = source_list()
     body = "namespace RbModel.Gen.ArabicScripts\n"
     body += chunked_list("joiningLetterRuns", "Nat × Nat × Nat", [f"({s}, {e}, {sc})" for s, e, sc in runs], per=50)
     body += ("def joiningScriptShaper : List (Nat × Nat) := ["
              + ", ".join(f"({sc}, {code.get(nm, 0)}) /- {tag_str(sc)} {nm} -/" for sc, nm in shapers) + "]\n")
+    body += ("def joiningScriptOtTags : List (Nat × List Nat) := ["
+             + ", ".join(f"({sc}, [{', '.join(map(str, props[sc][0]))}]) /- {tag_str(sc)} {' '.join(tag_str(t) for t in props[sc][0])} -/"
+                         for sc in scripts) + "]\n")
+    body += chunked_list("joiningShaperProbe", "Nat × Nat × Nat × Nat",
+                         [f"({sc}, {d}, {g}, {code.get(nm, 0)})" for sc, d, g, nm in probe], per=40)
     body += ("def useJoiningScripts : List Nat := ["
              + ", ".join(f"{t} /- {iso} {nm} -/" for t, iso, nm in use) + "]\n")
     body += "end RbModel.Gen.ArabicScripts\n"
